@@ -95,6 +95,29 @@ def rules_script(dname, rng, paths):
                 {"op": "dump", "d": dname, "k": e},
                 {"op": "get", "c": path, "d": dname, "k": b},
                 {"op": "get", "c": path, "d": dname, "k": c}]
+    # on a DMap that has a default TTL: an explicit expiry wins over the default, Incr keeps the expiry Expire has set,
+    # and only a write without an expiry of its own takes the default
+    dT = dname + "T"
+    late = []
+    n = 0
+    for path in paths:
+        n += 1
+        f, g, h = [dmaplib.hx("%s-t%d%s" % (dname, n, x)) for x in "fgh"]
+        pp = [p for p in paths if p != "pipe"]
+        put = {"op": "put", "c": path, "d": dT, "k": f, "v": dmaplib.hx("q")}
+        form = rng.choice(["px", "pxat"] if path.startswith("raw") or path == "pipe" else ["ex", "px", "exat", "pxat"])
+        put[form] = 60000
+        if form.endswith("at"):
+            put["rel"] = True
+        ops += [put, {"op": "dump", "d": dT, "k": f},
+                {"op": "incr", "c": rng.choice(paths), "d": dT, "k": g, "delta": 5},                   # takes the default TTL
+                {"op": "expire", "c": rng.choice(pp), "d": dT, "k": g, "ms": 60000},
+                {"op": rng.choice(["incr", "decr"]), "c": path, "d": dT, "k": g, "delta": 2},          # keeps Expire's deadline
+                {"op": "dump", "d": dT, "k": g},
+                {"op": "put", "c": path, "d": dT, "k": h, "v": dmaplib.hx("d")}]                       # default TTL
+        late += [{"op": "get", "c": path, "d": dT, "k": f}, {"op": "get", "c": path, "d": dT, "k": g},
+                 {"op": "get", "c": path, "d": dT, "k": h}]
+    ops += [{"op": "sleep", "ms": TTL + 2 * dmaplib.MARGIN + 60}] + late
     return ops
 
 
@@ -121,7 +144,7 @@ def gen_groups(res):
             rng = vlib.rng_for(res.seed, PID, "rules", sid)
             dname = "c09r%d" % sid
             scs.append({"id": sid, "ops": rules_script(dname, rng, dmaplib.ALLPATHS if res.tier == "thorough" else PATHS),
-                        "default_ttl": {}, "_dT": dname + "T"})
+                        "default_ttl": {dname + "T": TTL}, "_dT": dname + "T"})
             sid += 1
         # the per-DMap default TTL is a cluster configuration item
         c = dict(cfg)
